@@ -12,11 +12,11 @@
 namespace PdsVerif.Model
 
 /-- exception classes the modelled code can raise (names as Python prints them) -/
-inductive Err
+inductive Tensor.Err
   | zeroDivision | runtime | value | axisErr
 deriving DecidableEq, Repr
 
-def Err.name : Err → String
+def Tensor.Err.name : Tensor.Err → String
   | .zeroDivision => "ZeroDivisionError"
   | .runtime => "RuntimeError"
   | .value => "ValueError"
@@ -147,8 +147,6 @@ def stack [Inhabited α] (ts : List (Tensor α)) (axis : Int) : Except Err (Tens
           (ts.getD (idx.getD a 0) t0).val (idx.eraseIdx a))
     else .error .value
 
-end Tensor
-
 /-! ## 1-D helpers -/
 
 /-- Python's normalisation of a slice bound for a sequence of length `len` (step 1) -/
@@ -203,9 +201,6 @@ def ext {α : Type} [Inhabited α] (l r : Nat) (mode : PadMode α) (x : List α)
 /-- `np.pad(x, (l, r), mode)` for 1-D `x` (callers check NumPy's empty-axis error first) -/
 def pad1 {α : Type} [Inhabited α] (l r : Nat) (mode : PadMode α) (x : List α) : List α :=
   (List.range (l + x.length + r)).map fun (k : Nat) => ext l r mode x ((k : Int) - (l : Int))
-
-namespace Tensor
-variable {α : Type}
 
 /-- `np.pad(t, [(0,0)…,(l,r),…(0,0)], mode)`: only axis `ax` is padded, lane by lane -/
 def padAxis [Inhabited α] (ax l r : Nat) (mode : PadMode α) (t : Tensor α) : Tensor α :=
